@@ -1,0 +1,6 @@
+// Package verifhook provides build-tag guarded suspension points used by
+// external runtime-verification harnesses.
+//
+// Without the "verif" build tag, At is an empty function that the compiler
+// inlines away. With the tag, At invokes the callback installed with Set (if any).
+package verifhook
